@@ -1,4 +1,4 @@
-import SF.Gen.Sma
+import SF.Gen.BinaryEntropy
 import SF.Model.Window
 import SF.GenEq.Basic
 import SF.GenEq.Tactic
@@ -6,28 +6,28 @@ set_option linter.unusedSimpArgs false
 set_option linter.unusedSectionVars false
 set_option linter.unusedVariables false
 set_option maxHeartbeats 400000
-/-! Translator tie for `Sma` (src/sliding_windows/sma.rs): the view generated from the Rust text = the model's `wrap A (smaCore N)`,
+/-! Translator tie for `BinaryEntropy` (src/sliding_windows/binary_entropy.rs): the view generated from the Rust text = the model's `wrap A (bentCore N)`,
 for every child view: same answers and same panics on every input.  (Table-driven: tools/mk_geneq.py.) -/
-namespace SF.GenEq.Sma
-open SF SF.Gen.Sma
+namespace SF.GenEq.BinaryEntropy
+open SF SF.Gen.BinaryEntropy
 variable {α : Type} [Add α] [Sub α] [Mul α] [Div α] [Neg α] [NatCast α]
   [LT α] [DecidableLT α] [LE α] [DecidableLE α] [BEq α] [FloatLike α] [Transc α]
 
-def s0 (A : View α) (N : Nat) : State α A.σ := { view := A.init, window_len := N, q_vals := [], sum := nat 0 }
+def s0 (A : View α) (N : Nat) : State α A.σ := { view := A.init, window_len := N, q_vals := [], p := 0 }
 theorem new_ok (A : View α) (N : Nat)  : new A N = .ok (s0 A N) := by
   rfl
 
-@[simp] def abs (A : View α) (s : State α A.σ) : A.σ × SmaState α := (s.view, { q := s.q_vals, sum := s.sum })
+@[simp] def abs (A : View α) (s : State α A.σ) : A.σ × BentState α := (s.view, { q := s.q_vals, p := s.p })
 
 theorem upd_eq (A : View α) (s : State α A.σ) (x : α)  :
-    (update A s x).map (abs A) = (wrap A (smaCore s.window_len)).upd (abs A s) x := by
-  simp only [update, wrap, mapV, binop, smaCore, abs]; gen_tie
+    (update A s x).map (abs A) = (wrap A (bentCore s.window_len)).upd (abs A s) x := by
+  simp only [update, wrap, mapV, binop, bentCore, abs]; gen_tie
 theorem upd_cfg (A : View α) (s s' : State α A.σ) (x : α) : update A s x = .ok s' → s'.window_len = s.window_len := by
-  simp only [update, smaCore]; gen_tie
-theorem last_eq (A : View α) (s : State α A.σ)  : last A s = (wrap A (smaCore s.window_len)).last (abs A s) := by
-  simp only [last, wrap, mapV, binop, smaCore, abs]; gen_tie
+  simp only [update, bentCore]; gen_tie
+theorem last_eq (A : View α) (s : State α A.σ)  : last A s = (wrap A (bentCore s.window_len)).last (abs A s) := by
+  simp only [last, wrap, mapV, binop, bentCore, abs]; gen_tie
 
-def sim (A : View α) (N : Nat)  : Sim (mkView (s0 A N) (update A) (last A)) (wrap A (smaCore N)) where
+def sim (A : View α) (N : Nat)  : Sim (mkView (s0 A N) (update A) (last A)) (wrap A (bentCore N)) where
   Cfg s := s.window_len = N
   abs := abs A
   init_cfg := by simp [mkView, s0]
@@ -45,8 +45,8 @@ def sim (A : View α) (N : Nat)  : Sim (mkView (s0 A N) (update A) (last A)) (wr
     have := last_eq A s  
     (try rw [h0] at this); exact this
 
-/-- the Rust text of `Sma`, as translated, and the model agree on every input: same answers, same panics -/
+/-- the Rust text of `BinaryEntropy`, as translated, and the model agree on every input: same answers, same panics -/
 theorem tie (A : View α) (N : Nat)  (xs : List α) :
-    (mkView (s0 A N) (update A) (last A)).trace (s0 A N) xs = (wrap A (smaCore N)).trace (wrap A (smaCore N)).init xs :=
+    (mkView (s0 A N) (update A) (last A)).trace (s0 A N) xs = (wrap A (bentCore N)).trace (wrap A (bentCore N)).init xs :=
   (sim A N ).trace_eq xs
-end SF.GenEq.Sma
+end SF.GenEq.BinaryEntropy
